@@ -543,10 +543,11 @@ static void op_inq(stmt_t *s, sb_t *o) {
 }
 
 /* quiesce: library-wide resource report */
+static long long malloc_at_script_begin = 0;   /* heap the library already held when the script started (leaked by earlier scripts) */
 static void op_quiesce(sb_t *o) {
     int nopen = -1; int ids[4096]; MPI_Offset msz = -1;
     int e1 = ncmpi_inq_files_opened(&nopen, ids); int e2 = ncmpi_inq_malloc_size(&msz);
-    sb_printf(o, ",\"rc\":0,\"e\":[%d,%d],\"nopen\":%d,\"malloc\":%lld,\"ledger\":", e1, e2, nopen, (long long)msz);
+    sb_printf(o, ",\"rc\":0,\"e\":[%d,%d],\"nopen\":%d,\"malloc\":%lld,\"malloc0\":%lld,\"ledger\":", e1, e2, nopen, (long long)msz, malloc_at_script_begin);
     char *lj = shim_ledger_report();
     sb_put(o, lj); free(lj);
 }
@@ -752,6 +753,7 @@ static char *run_script(char *text, int *k_out, char *id_out) {
         if (wrank >= k) { free(out.p); return NULL; }
         cur = comm_k[k]; PMPI_Comm_rank(cur, &krank); PMPI_Comm_size(cur, &ksize);
         shim_begin_script(cur, match && k > 1);
+        { MPI_Offset m0 = 0; ncmpi_inq_malloc_size(&m0); malloc_at_script_begin = (long long)m0; }
         line = strtok_r(NULL, "\n", &save);
     }
     for (; line; line = strtok_r(NULL, "\n", &save)) {
